@@ -1649,14 +1649,21 @@ example : (deviceAttest01Validate wHash true wCh
     answered 401; the stored challenge is untouched and the validation client is not used —
     whatever the host would have served, whichever key authorization it carries. -/
 theorem getChallenge_not_owner (h : Hash) (cfg : Cfg) (dbOk : Bool) (ch : Ch) (w : World) (req : HReq)
-    (hex : req.chExists = true) (hno : req.owner = false) :
+    (ha : req.authed = true) (hex : req.chExists = true) (hno : req.owner = false) :
     getChallenge h cfg dbOk ch w req = .val ⟨.unauthorized, untouched ch⟩ := by
-  unfold getChallenge; simp [hex, hno]
+  unfold getChallenge; simp [ha, hex, hno]
+
+/-- a request the middleware refuses (no `kid`, unknown or inactive account, account of another
+    provisioner, signature not by the account's stored key) never reaches the handler -/
+theorem getChallenge_not_authenticated (h : Hash) (cfg : Cfg) (dbOk : Bool) (ch : Ch) (w : World) (req : HReq)
+    (ha : req.authed = false) :
+    getChallenge h cfg dbOk ch w req = .val ⟨.notFound, untouched ch⟩ := by
+  unfold getChallenge; simp [ha]
 
 theorem getChallenge_unknown_challenge (h : Hash) (cfg : Cfg) (dbOk : Bool) (ch : Ch) (w : World) (req : HReq)
     (hex : req.chExists = false) :
     getChallenge h cfg dbOk ch w req = .val ⟨.notFound, untouched ch⟩ := by
-  unfold getChallenge; simp [hex]
+  unfold getChallenge; cases req.authed <;> simp [hex]
 
 /-- **A POST to the challenge URL turns the stored challenge valid only if** the challenge exists,
     the signing account owns it, and its validator's accepting condition holds for the response —
@@ -1664,7 +1671,7 @@ theorem getChallenge_unknown_challenge (h : Hash) (cfg : Cfg) (dbOk : Bool) (ch 
     (`ch.thumb`), and, for device-attest-01, with the authorization the URL names loadable. -/
 theorem getChallenge_valid_only_if (h : Hash) (cfg : Cfg) (dbOk : Bool) (ch : Ch) (w : World) (req : HReq) (r : HOut)
     (hp : ch.status = .pending) (hr : getChallenge h cfg dbOk ch w req = .val r) (hv : r.effect.status = .valid) :
-    req.chExists = true ∧ req.owner = true ∧ dbOk = true ∧
+    req.authed = true ∧ req.chExists = true ∧ req.owner = true ∧ dbOk = true ∧
     ((ch.typ = .http01 ∧ ∃ x, worldVia req.azUrl w = .http x ∧ HttpAccept ch x) ∨
      (ch.typ = .dns01 ∧ ∃ x, worldVia req.azUrl w = .txt x ∧ DnsAccept h ch x) ∨
      (ch.typ = .tlsalpn01 ∧ ∃ x, worldVia req.azUrl w = .tls x ∧ TlsAccept h ch x) ∨
@@ -1672,11 +1679,13 @@ theorem getChallenge_valid_only_if (h : Hash) (cfg : Cfg) (dbOk : Bool) (ch : Ch
      (ch.typ = .wireDpop01 ∧ ∃ f, worldVia req.azUrl w = .dpop f ∧ DpopAccept ch f) ∨
      (ch.typ = .wireOidc01 ∧ ∃ f, worldVia req.azUrl w = .oidc f ∧ OidcAccept ch f)) := by
   unfold getChallenge at hr
+  cases hau : req.authed
+  · simp [hau] at hr; subst hr; simp [untouched, hp] at hv
   cases hex : req.chExists
-  · simp [hex] at hr; subst hr; simp [untouched, hp] at hv
+  · simp [hau, hex] at hr; subst hr; simp [untouched, hp] at hv
   · cases hown : req.owner
-    · simp [hex, hown] at hr; subst hr; simp [untouched, hp] at hv
-    · simp only [hex, hown, Bool.not_true, Bool.false_eq_true, if_false] at hr
+    · simp [hau, hex, hown] at hr; subst hr; simp [untouched, hp] at hv
+    · simp only [hau, hex, hown, Bool.not_true, Bool.false_eq_true, if_false] at hr
       cases hval : validate h cfg dbOk ch (worldVia req.azUrl w) with
       | crash => simp [hval] at hr
       | unmodelled => simp only [hval] at hr; injection hr with hr; subst hr; simp [untouched, hp] at hv
@@ -1685,7 +1694,7 @@ theorem getChallenge_valid_only_if (h : Hash) (cfg : Cfg) (dbOk : Bool) (ch : Ch
         simp only [hval] at hr
         injection hr with hr; subst hr
         obtain ⟨hd, hc⟩ := validate_valid_only_if h cfg dbOk ch _ o hp hval hv
-        exact ⟨rfl, rfl, hd, hc⟩
+        exact ⟨rfl, rfl, rfl, hd, hc⟩
 
 /-- an unknown authorization id in the URL never yields a valid device-attest-01 challenge -/
 theorem getChallenge_missing_authz (h : Hash) (cfg : Cfg) (dbOk : Bool) (ch : Ch) (i : DaIn) (req : HReq) (r : HOut)
@@ -1693,11 +1702,13 @@ theorem getChallenge_missing_authz (h : Hash) (cfg : Cfg) (dbOk : Bool) (ch : Ch
     (hr : getChallenge h cfg dbOk ch (.attest i) req = .val r) : r.effect.status ≠ .valid := by
   intro hv
   unfold getChallenge at hr
+  cases hau : req.authed
+  · simp [hau] at hr; subst hr; simp [untouched, hp] at hv
   cases hex : req.chExists
-  · simp [hex] at hr; subst hr; simp [untouched, hp] at hv
+  · simp [hau, hex] at hr; subst hr; simp [untouched, hp] at hv
   · cases hown : req.owner
-    · simp [hex, hown] at hr; subst hr; simp [untouched, hp] at hv
-    · simp only [hex, hown, Bool.not_true, Bool.false_eq_true, if_false, worldVia, hm, if_true] at hr
+    · simp [hau, hex, hown] at hr; subst hr; simp [untouched, hp] at hv
+    · simp only [hau, hex, hown, Bool.not_true, Bool.false_eq_true, if_false, worldVia, hm, if_true] at hr
       unfold validate at hr
       simp only [hp, ne_eq, not_true_eq_false, if_false, ht] at hr
       cases hd : deviceAttest01Validate h dbOk ch { i with authzOk := false, authzMissing := true } with
@@ -1714,6 +1725,7 @@ theorem getChallenge_ok_ret (h : Hash) (cfg : Cfg) (dbOk : Bool) (ch : Ch) (w : 
   unfold getChallenge at hr
   split at hr; · injection hr with hr; subst hr; cases hc
   split at hr; · injection hr with hr; subst hr; cases hc
+  split at hr; · injection hr with hr; subst hr; cases hc
   split at hr
   · rename_i o _
     injection hr with hr; subst hr
@@ -1726,6 +1738,7 @@ theorem getChallenge_ok_ret (h : Hash) (cfg : Cfg) (dbOk : Bool) (ch : Ch) (w : 
 theorem getChallenge_total (h : Hash) (cfg : Cfg) (dbOk : Bool) (ch : Ch) (w : World) (req : HReq)
     (h16 : ∀ a, ch.ip = some a → a.length = 16) : getChallenge h cfg dbOk ch w req ≠ .crash := by
   unfold getChallenge
+  split; · simp
   split; · simp
   split; · simp
   have := validate_total h cfg dbOk ch (worldVia req.azUrl w) h16
@@ -1749,7 +1762,7 @@ theorem handler_authz_valid_cause (own foreign : AzRec) (e : Outcome) :
 
 example : getChallenge wHash ⟨false, 0, 0⟩ true
     ⟨.http01, .pending, .none, s "example.com", s "tok", some (s "thumb"), none⟩
-    (.http (.resp 200 (some (s "tok.thumb")))) ⟨true, true, .own⟩ =
+    (.http (.resp 200 (some (s "tok.thumb")))) ⟨true, true, true, .own⟩ =
     .val ⟨.ok, ⟨.valid, .none, .ok, .httpGet (s "http://example.com/.well-known/acme-challenge/tok"), false⟩⟩ := by decide
 
 /-! ## 12. what the source-derived tables mean (stage `src`, regenerated with go/ast on every run) -/
@@ -1802,5 +1815,180 @@ theorem src_types_agree (t : IdType) (w : Bool) :
     parameter — the shape `getChallenge` models -/
 theorem src_handler_shape :
     Src.handlerOrder = "ownership-then-validate;validate(ctx+db+jwk+payload.value);jwk=jwkFromContext();jwk-assignments=1;ch=db.GetChallenge;ch.AuthorizationID=azID;azID=chi.URLParam:authzID" := rfl
+
+/-! ## 13. provisioner configuration glue: what is offered, and what survives the admin database -/
+
+/-- the provisioner's filter only removes challenge types: a wildcard DNS identifier still gets
+    neither http-01 nor tls-alpn-01, and only DNS identifiers are ever marked wildcard -/
+theorem offered_filtered (p : ProvCfg) (t : IdType) (raw : Str) :
+    (offered p t raw).1 = (newAuthorization t raw).1 ∧ (offered p t raw).2.1 = (newAuthorization t raw).2.1 ∧
+    (∀ c ∈ (offered p t raw).2.2, c ∈ (newAuthorization t raw).2.2 ∧ isChallengeEnabled p c = true) := by
+  unfold offered
+  refine ⟨rfl, rfl, ?_⟩
+  intro c hc
+  simpa [List.mem_filter] using hc
+
+theorem offered_wildcard (p : ProvCfg) (raw : Str) (h : (s "*.").isPrefixOf raw = true) :
+    .http01 ∉ (offered p .dns raw).2.2 ∧ .tlsalpn01 ∉ (offered p .dns raw).2.2 := by
+  unfold offered newAuthorization trimIfWildcard challengeTypes
+  simp [h, List.mem_filter]
+
+theorem lo_lo (c : Nat) : lo (lo c) = lo c := by
+  unfold lo
+  by_cases h : 65 ≤ c ∧ c ≤ 90
+  · have : ¬ (65 ≤ c + 32 ∧ c + 32 ≤ 90) := by omega
+    rw [if_pos h, if_neg this]
+  · rw [if_neg h, if_neg h]
+
+theorem lower_lower (a : Str) : lower (lower a) = lower a := by
+  unfold lower; simp [List.map_map, Function.comp_def, lo_lo]
+
+theorem foldEq_lower_left (a b : Str) : foldEq (lower a) b = foldEq a b := by
+  unfold foldEq; rw [show (lower a).map lo = a.map lo from lower_lower a]
+
+/-- **attestation formats survive the admin database**: every format `Init` accepts exists in the
+    linkedca enumeration, so the set of enabled formats is the same before and after migration -/
+theorem migrate_preserves_formats (p : ProvCfg) (hv : ∀ n ∈ p.formats, linkedcaFormats.contains (lower n) = true)
+    (f : Str) : isFormatEnabled (migrate p) f = isFormatEnabled p f := by
+  have hm : (migrate p).formats = p.formats.map lower := by
+    unfold migrate
+    simp only
+    apply List.filter_eq_self.2
+    intro x hx
+    obtain ⟨n, hn, rfl⟩ := List.mem_map.1 hx
+    exact hv n hn
+  unfold isFormatEnabled
+  rw [hm]
+  by_cases he : p.formats = []
+  · simp [he]
+  · have : p.formats.map lower ≠ [] := by simpa using he
+    simp only [he, this, if_false, List.any_map, Function.comp_def, foldEq_lower_left]
+
+/-- the clause one would want: the challenge types a provisioner offers are the same after the
+    configuration went through the admin database -/
+def MigrationKeepsChallenges : Prop :=
+  ∀ (p : ProvCfg), (∀ n ∈ p.challenges, ∃ c : ChType, c ≠ .unknown ∧ lower n = c.name) →
+    ∀ c ∈ [ChType.http01, .dns01, .tlsalpn01, .deviceAttest01], isChallengeEnabled (migrate p) c = isChallengeEnabled p c
+
+/-- **Refutation (reproduced on the real code)**: a provisioner configured with Wire challenges only
+    offers no http-01 / dns-01 / tls-alpn-01; the linkedca enumeration has no Wire challenge types,
+    the conversion *skips* them, the list comes back empty, and an empty list means the three
+    default challenges: after migration the provisioner offers what it was configured not to. -/
+theorem migrate_wire_only_opens_defaults : ¬ MigrationKeepsChallenges := by
+  intro h
+  have := h ⟨[s "wire-oidc-01", s "wire-dpop-01"], [], 0⟩
+    (by intro n hn
+        simp at hn
+        rcases hn with rfl | rfl
+        · exact ⟨.wireOidc01, by decide, by decide⟩
+        · exact ⟨.wireDpop01, by decide, by decide⟩)
+    .http01 (by simp)
+  revert this; decide
+
+theorem mem_filter_contains (l : List Str) (x : Str) :
+    ((l.map lower).filter (linkedcaChallenges.contains ·)).any (fun n => foldEq n x) =
+      l.any (fun n => linkedcaChallenges.contains (lower n) && foldEq n x) := by
+  induction l with
+  | nil => rfl
+  | cons a as ih =>
+    by_cases hc : linkedcaChallenges.contains (lower a) = true
+    · rw [List.map_cons, List.filter_cons_of_pos (by simpa using hc)]
+      simp only [List.any_cons, ih, hc, Bool.true_and, foldEq_lower_left]
+    · have hf : linkedcaChallenges.contains (lower a) = false := by simpa using hc
+      rw [List.map_cons, List.filter_cons_of_neg (by simpa using hc)]
+      simp only [List.any_cons, ih, hf, Bool.false_and, Bool.false_or]
+
+/-- with the gap closed by hypothesis — at least one configured challenge is one linkedca knows,
+    or none is configured — migration changes nothing for the four representable types -/
+theorem migrate_preserves_challenges_partial (p : ProvCfg)
+    (hne : p.challenges = [] ∨ ∃ n ∈ p.challenges, linkedcaChallenges.contains (lower n) = true)
+    (c : ChType) (hc : c ∈ [ChType.http01, .dns01, .tlsalpn01, .deviceAttest01]) :
+    isChallengeEnabled (migrate p) c = isChallengeEnabled p c := by
+  have hcn : ∀ n : Str, foldEq n c.name = true → linkedcaChallenges.contains (lower n) = true := by
+    intro n hn
+    have : lower n = c.name := by
+      have h2 : lower c.name = c.name := by
+        simp at hc; rcases hc with rfl | rfl | rfl | rfl <;> decide
+      unfold foldEq at hn
+      have := of_decide_eq_true (by simpa using hn) 
+      unfold lower at h2 ⊢
+      rw [this, h2]
+    rw [this]
+    simp at hc; rcases hc with rfl | rfl | rfl | rfl <;> decide
+  rcases hne with he | ⟨n0, hn0, hr0⟩
+  · unfold isChallengeEnabled migrate; simp [he]
+  · have hmne : (migrate p).challenges ≠ [] := by
+      unfold migrate
+      simp only
+      intro hnil
+      have : lower n0 ∈ (p.challenges.map lower).filter (linkedcaChallenges.contains ·) :=
+        List.mem_filter.2 ⟨List.mem_map.2 ⟨n0, hn0, rfl⟩, hr0⟩
+      rw [hnil] at this; cases this
+    have hpne : p.challenges ≠ [] := by intro h; rw [h] at hn0; cases hn0
+    unfold isChallengeEnabled
+    simp only [hmne, hpne, if_false]
+    unfold migrate
+    simp only
+    rw [mem_filter_contains]
+    apply Bool.eq_iff_iff.2
+    simp only [List.any_eq_true, Bool.and_eq_true]
+    constructor
+    · rintro ⟨n, hn, _, hf⟩; exact ⟨n, hn, hf⟩
+    · rintro ⟨n, hn, hf⟩; exact ⟨n, hn, hcn n hf, hf⟩
+
+example : offered ⟨[s "DNS-01", s "http-01"], [], 0⟩ .dns (s "*.example.com") = (s "example.com", true, [.dns01]) := by decide
+example : offered (migrate ⟨[s "wire-oidc-01"], [], 0⟩) .dns (s "example.com") =
+    (s "example.com", false, [.dns01, .http01, .tlsalpn01]) := by decide
+example : offered ⟨[s "wire-oidc-01"], [], 0⟩ .dns (s "example.com") = (s "example.com", false, []) := by decide
+
+/-! ### source tables behind the configuration glue and the route -/
+
+def Src.nameOf (tbl : List (String × String)) (qualified : String) : Option String :=
+  (tbl.find? (fun e => "provisioner." ++ e.1 == qualified)).map (·.2)
+
+/-- **the conversion switches are what `migrate` models**: `challengesToLinkedca` switches on the
+    lower-cased name and knows exactly the four names in `linkedcaChallenges` (no Wire type);
+    `challengesToCertificates` is its inverse; the same for the three attestation formats -/
+theorem src_conversions_match_migrate :
+    Src.convChallengesToLinkedca.1 = "provisioner.ACMEChallenge(ch.String())" ∧
+    (Src.convChallengesToLinkedca.2.filterMap (fun e => Src.nameOf Src.constProvChallenges e.1)).map Verif.s = linkedcaChallenges ∧
+    Src.convChallengesToCertificates.2 = Src.convChallengesToLinkedca.2.map (fun e => (e.2, e.1)) ∧
+    Src.convFormatsToLinkedca.1 = "provisioner.ACMEAttestationFormat(f.String())" ∧
+    (Src.convFormatsToLinkedca.2.filterMap (fun e => Src.nameOf Src.constProvFormats e.1)).map Verif.s = linkedcaFormats ∧
+    Src.convFormatsToCertificates.2 = Src.convFormatsToLinkedca.2.map (fun e => (e.2, e.1)) := by
+  decide
+
+/-- the default lists and the comparison of `IsChallengeEnabled` / `IsAttestationFormatEnabled`
+    are the ones `isChallengeEnabled` / `isFormatEnabled` use -/
+theorem src_enabled_defaults_match :
+    (Src.enabledChallenges.1.filterMap (fun n => (Src.constProvChallenges.find? (·.1 == n)).map (·.2))).map Verif.s =
+      [s "http-01", s "dns-01", s "tls-alpn-01"] ∧
+    Src.enabledChallenges.2 = ("len(p.Challenges)>0", "strings.EqualFold(string(ch),string(challenge))") ∧
+    (Src.enabledFormats.1.filterMap (fun n => (Src.constProvFormats.find? (·.1 == n)).map (·.2))).map Verif.s = linkedcaFormats ∧
+    Src.enabledFormats.2 = ("len(p.AttestationFormats)>0", "strings.EqualFold(string(f),string(format))") := by
+  decide
+
+/-- the challenge-type strings of package acme and of package provisioner are the model's names -/
+theorem src_consts_match :
+    (∀ t ∈ dispatchedTypes, (Src.constAcmeChallenges.find? (·.1 == t.goConst)).map (fun e => Verif.s e.2) = some t.name) ∧
+    Src.constProvChallenges.map (·.2) = Src.constAcmeChallenges.map (·.2) := by
+  decide
+
+/-- the challenge URL is served by `GetChallenge` behind `extractPayloadByKid`: the request must be
+    signed by an existing account referenced by `kid` (`lookupJWK` puts that account and *its stored
+    key* into the context) — an embedded JWK is not accepted on this route; the authorization URL
+    likewise, as POST-as-GET -/
+theorem src_route_shape :
+    Src.routeChallenge = "POST getPath(acme.ChallengeLinkType,\"{provisionerID}\",\"{authzID}\",\"{chID}\") extractPayloadByKid(GetChallenge)" ++ Src.routeMiddleware ∧
+    Src.routeAuthz = "POST getPath(acme.AuthzLinkType,\"{provisionerID}\",\"{authzID}\") extractPayloadByKid(isPostAsGet(GetAuthorization))" ++ Src.routeMiddleware :=
+  ⟨rfl, rfl⟩
+
+/-- the validation client as written: every method hands the validator's own arguments (URL, TXT
+    name, address and TLS configuration) to the standard library unchanged — so what is contacted is
+    what `target_from_identifier` says — and there is no redirect policy besides net/http's default
+    (at most ten hops; the correspondence drives it against loopback servers) -/
+theorem src_client_shape :
+    Src.clientShape = "NewClient:http{,Timeout=30*time.Second,Transport{,Proxy=http.ProxyFromEnvironment,TLSClientConfig{,InsecureSkipVerify=true,dialer{,Timeout=30*time.Second;client.Get=c.http.Get(url);client.LookupTxt=net.LookupTXT(name);client.TLSDial=tls.DialWithDialer(c.dialer,network,addr,config);MustClientFromContext=NewClient()|c" :=
+  rfl
 
 end Verif.AcmeChallenge
